@@ -61,6 +61,10 @@ type c10Contract struct {
 }
 
 type c10Case struct {
+	s2tr  *crhp2.Transport // RHP2 session kept open across RPCs (session2)
+	s2con *c10Contract
+	keep2 bool // directed: always keep the session open
+
 	h     *c10Host
 	em    *verifEmitter
 	rng   *rand.Rand
@@ -387,6 +391,7 @@ func c10Hash(rev types.FileContractRevision) types.Hash256 {
 
 // locked2 runs fn inside RPCLock/RPCUnlock on a fresh transport
 func (c *c10Case) locked2(ct *c10Contract, fn func(tr *crhp2.Transport, rev crhp2.ContractRevision) error) error {
+	c.end2()
 	tr := c.dial2()
 	defer tr.Close()
 	rev, err := proto2.RPCLock(tr, ct.key, ct.id)
@@ -395,6 +400,53 @@ func (c *c10Case) locked2(ct *c10Contract, fn func(tr *crhp2.Transport, rev crhp
 	}
 	defer proto2.RPCUnlock(tr)
 	return fn(tr, rev)
+}
+
+// end2 ends the RHP2 session kept open by session2, if any
+func (c *c10Case) end2() {
+	if c.s2tr != nil {
+		if !c.s2tr.IsClosed() {
+			proto2.RPCUnlock(c.s2tr)
+		}
+		c.s2tr.Close()
+		c.s2tr, c.s2con = nil, nil
+	}
+}
+
+// session2 is locked2 for the revising RPCs (write, read, sector roots), except that half of the
+// time the session stays open afterwards and the next such RPC on the same contract is sent in
+// it: the renter then builds on the revision the host signed last in this session, which is the
+// one the host has stored.  Any other operation ends the session first.
+func (c *c10Case) session2(ct *c10Contract, fn func(tr *crhp2.Transport, rev crhp2.ContractRevision) error) error {
+	if c.s2tr != nil && (c.s2con != ct || c.s2tr.IsClosed()) {
+		c.end2()
+	}
+	if c.s2tr != nil {
+		stored, err := c.h.node.Contracts.Contract(ct.id)
+		if err != nil {
+			c.h.t.Fatal(err)
+		}
+		c.em.Count("rhp2:rpc-in-open-session")
+		err = fn(c.s2tr, crhp2.ContractRevision{Revision: stored.Revision})
+		if err != nil || !(c.keep2 || c.rng.Intn(2) == 0) {
+			c.end2()
+		}
+		return err
+	}
+	tr := c.dial2()
+	rev, err := proto2.RPCLock(tr, ct.key, ct.id)
+	if err != nil {
+		tr.Close()
+		return fmt.Errorf("lock: %w", err)
+	}
+	err = fn(tr, rev)
+	if err == nil && (c.keep2 || c.rng.Intn(2) == 0) {
+		c.s2tr, c.s2con = tr, ct
+		return nil
+	}
+	proto2.RPCUnlock(tr)
+	tr.Close()
+	return err
 }
 
 func (c *c10Case) settings2() crhp2.HostSettings {
@@ -439,6 +491,7 @@ func (c *c10Case) over(cost types.Currency) types.Currency {
 }
 
 func (c *c10Case) form2(renterPayout, hostCollateral types.Currency, defect int) {
+	c.end2()
 	h := c.h
 	key := types.NewPrivateKeyFromSeed(frandBytes(c.rng, 32))
 	st := c.settings2()
@@ -499,7 +552,7 @@ func (c *c10Case) roots2(i int, defect int) {
 	var opTerm string
 	before := c.snap(i)
 	var paid types.Currency
-	err := c.locked2(ct, func(tr *crhp2.Transport, rev crhp2.ContractRevision) error {
+	err := c.session2(ct, func(tr *crhp2.Transport, rev crhp2.ContractRevision) error {
 		// NumRoots = 0 is never sent: rpcSectorRoots commits the revision and then panics in
 		// BuildSectorRangeProof (a C14 matter, seen while building this harness)
 		n := uint64(1 + c.rng.Intn(ct.sectors))
@@ -537,7 +590,7 @@ func (c *c10Case) read2(i int, defect int) {
 	var opTerm string
 	before := c.snap(i)
 	var paid types.Currency
-	err := c.locked2(ct, func(tr *crhp2.Transport, rev crhp2.ContractRevision) error {
+	err := c.session2(ct, func(tr *crhp2.Transport, rev crhp2.ContractRevision) error {
 		proof := c.rng.Intn(2) == 0
 		nsec := 1 + c.rng.Intn(2)
 		var sections []crhp2.RPCReadRequestSection
@@ -589,7 +642,7 @@ func (c *c10Case) write2(i int, defect int) {
 	var opTerm string
 	before := c.snap(i)
 	var paid types.Currency
-	err := c.locked2(ct, func(tr *crhp2.Transport, rev crhp2.ContractRevision) error {
+	err := c.session2(ct, func(tr *crhp2.Transport, rev crhp2.ContractRevision) error {
 		// actions
 		var actions []crhp2.RPCWriteAction
 		sectors := ct.sectors
@@ -855,6 +908,7 @@ func (c *c10Case) choosePay(cost types.Currency, short bool) c10Pay {
 
 // simple3: update price table / account balance / latest revision: pay, spend one cost, commit
 func (c *c10Case) simple3(which int, forcePay *c10Pay) {
+	c.end2()
 	tr := c.dial3()
 	defer tr.Close()
 	s := tr.DialStream()
@@ -959,6 +1013,7 @@ func c10Closed(err error) bool {
 }
 
 func (c *c10Case) fund3(i, a int, defect int) {
+	c.end2()
 	ct := c.cons[i]
 	cur := c.contract(i).Revision
 	maxBal := c.h.node.Settings.Settings().MaxAccountBalance
@@ -1032,6 +1087,7 @@ func (i c10Instr) term() string {
 }
 
 func (c *c10Case) exec3() {
+	c.end2()
 	pt := c.pt
 	// the program's contract (if it needs one)
 	ci := c.anyOpen()
@@ -1327,6 +1383,7 @@ func (c *c10Case) waitUnlocked() {
 }
 
 func (c *c10Case) renew3(i int) {
+	c.end2()
 	h := c.h
 	ct := c.cons[i]
 	cur := c.contract(i)
@@ -1451,10 +1508,14 @@ func (c *c10Case) run(id int) {
 	case 1:
 		// directed: over-payment on every RHP2 RPC, then renew-and-clear with an over-paid final exchange
 		form()
+		c.keep2 = true // ... all in one session: every RPC builds on what the previous one signed
 		c.write2(0, 0)
 		c.roots2(0, 0)
 		c.read2(0, 0)
 		c.write2(0, 0)
+		c.roots2(0, 0)
+		c.write2(0, 0)
+		c.keep2 = false
 		c.renew2(0, 0)
 		c.write2(len(c.cons)-1, 0)
 	case 2:
@@ -1511,6 +1572,7 @@ func (c *c10Case) run(id int) {
 			}
 		}
 	}
+	c.end2()
 	c.em.EndCase(c.okOps >= 3)
 }
 
@@ -1550,6 +1612,7 @@ func (c *c10Case) directedRegistry() {
 }
 
 func (c *c10Case) execRegistry(write, byContract bool) {
+	c.end2()
 	pt := c.pt
 	var data []byte
 	put := func(b []byte) uint64 {
